@@ -6,6 +6,9 @@ ROOT = os.path.dirname(os.path.dirname(os.path.abspath(__file__)))
 
 # id -> (level, technique, level text, level note, design ref)
 CHECKS = {
+    "C18": ("fault_enumeration", "runtime monitoring with crash and fault injection from outside the process: strace enumerates the file-system syscalls of each write scenario and injects SIGKILL (crash point) or an errno before every one of them; a fresh verifier process classifies the directory afterwards; concurrent reader/writer histories recorded at the client boundary and checked with porcupine (write-once register per key) in the race-detector build",
+            "Every syscall boundary of every scenario was used as a crash point and as a fault point and the store was found atomic and usable afterwards; concurrent histories were linearizable and free of partial reads and race reports. Exhaustive per scenario; sampling over schedules.",
+            "Trusted: strace injection as crash/fault model (process death and syscall errors; no power-loss model), porcupine, the race detector.", "DESIGN.md §2 C18"),
     "C17": ("exploration", "runtime monitoring: histories of storage operations (incl. overlapping stream lifetimes) checked online against a write-once map model; containment of the filesystem store observed externally with strace (every path argument of every file syscall inside a history) and with sentinel files around the base directory",
             "Held on the histories observed for memstore, cidlink.Memory and fsstore (default and hex-escaped, three shardings) over a hostile key pool. Sampling of histories.",
             "Trusted: the map model, strace as observer. Identity escaping is not exercised.", "DESIGN.md §2 C17"),
